@@ -678,6 +678,9 @@ class SigmaNumber(SigmaType):
     init_number: InitVar[Any]
 
     def __post_init__(self, init_number: Any) -> None:
+        if isinstance(init_number, int) and not isinstance(init_number, bool):
+            self.number = init_number  # an integer is kept exactly (float() loses precision above 2**53)
+            return
         try:  # Only use float number if it can't be represented as int.
             f = float(init_number)
             if not isfinite(f):
